@@ -20,7 +20,7 @@ DROP_ATTRS = ("must_use", "inline", "allow", "doc", "automatically_derived", "co
 # trait impls that are never emitted (E1); Debug is re-rendered as #[derive(Debug)]
 DROP_TRAITS = {"Debug", "Display", "Error", "Hash", "Ord", "PartialOrd", "Eq", "StructuralPartialEq", "TrivialClone", "Iterator"}
 REDIRECT = {"sha1", "hmac", "md5", "rand", "num_bigint", "rug"}
-SHIM_METHODS = {"to_be_bytes", "to_le_bytes", "from_be_bytes", "from_le_bytes"}
+SHIM_METHODS = {"to_be_bytes", "to_le_bytes", "from_be_bytes", "from_le_bytes", "try_into"}
 INT_SIZES = {"u8": 1, "i8": 1, "u16": 2, "i16": 2, "u32": 4, "i32": 4, "u64": 8, "i64": 8, "u128": 16, "i128": 16}
 
 
